@@ -12,6 +12,7 @@ Ok(ev) == CASE ev.e = "store" -> StoreAllowed(ev)
             [] ev.e = "ptrload" -> PtrLoadAllowed(ev)
             [] ev.e = "ptrloadrun" -> PtrLoadRunAllowed(ev)
             [] ev.e = "ptrstore" -> PtrStoreAllowed(ev)
+            [] ev.e = "cellcmp" -> CellCmpAllowed(ev)
             [] ev.e = "ptrchain" -> NeverOut(ev)
             [] ev.e = "entry" -> EntryAllowed(ev)
             [] ev.e = "grant" -> GrantAllowed(ev)
